@@ -376,6 +376,7 @@ func (vc *VC) appendCall(call ssa.CallInstruction) {
 		vc.val[v] = s
 		return
 	}
+	vc.mapOrderCheck(call)
 	en, es := vc.e.elemArr(st.Elem())
 	nonnil := vc.e.cs.NonNilElem[vc.e.typeName(c.Args[0].Type())] && canBeNil(st.Elem())
 	// fixed number of appended elements (varargs array)?
@@ -468,6 +469,7 @@ func (vc *VC) libCall(call ssa.CallInstruction, callee *ssa.Function, args []Ter
 		return r[0]
 	}
 	vc.usedLib[name] = true
+	vc.formatConstCheck(call, callee)
 	switch name {
 	case "strings.ToLower":
 		vc.setVal(v, sx("lower", args[0]))
@@ -478,7 +480,16 @@ func (vc *VC) libCall(call ssa.CallInstruction, callee *ssa.Function, args []Ter
 		vc.gfact(Eq(Eq(sx("slen", n), "0"), Eq(sx("slen", args[0]), "0")))
 		return true
 	case "strings.HasPrefix", "strings.HasSuffix":
-		r := strRes()
+		var r Term
+		if name == "strings.HasPrefix" {
+			// pure: available to contracts as hasprefix(s, p)
+			fn := sym("spec:hasprefix")
+			vc.declareFun(fn, []string{SStr, SStr}, "Bool")
+			r = sx(fn, args[0], args[1])
+			vc.setVal(v, r)
+		} else {
+			r = strRes()
+		}
 		vc.gfact(Imp(r, Ge(sx("slen", args[0]), sx("slen", args[1]))))
 		vc.gfact(Imp(Eq(sx("slen", args[1]), "0"), r))
 		if name == "strings.HasPrefix" {
@@ -588,7 +599,22 @@ func (vc *VC) libCall(call ssa.CallInstruction, callee *ssa.Function, args []Ter
 		r := strRes()
 		vc.gfact(Ge(r, "0"))
 		return true
-	case "filepath.Join", "filepath.Clean", "filepath.Dir", "filepath.Base", "filepath.ToSlash", "filepath.FromSlash", "filepath.Ext", "path.Join", "path.Clean":
+	case "filepath.ToSlash":
+		// pure: available to contracts as toslash(p)
+		fn := sym("spec:toslash")
+		vc.declareFun(fn, []string{SStr}, SStr)
+		vc.setVal(v, sx(fn, args[0]))
+		vc.gfact(Ge(sx("slen", sx(fn, args[0])), "0"))
+		return true
+	case "json.Unmarshal":
+		// the error is a function of the input bytes: jsonbad(data) (available to contracts)
+		fn := sym("spec:jsonbad")
+		vc.declareFun(fn, []string{SSlice}, "Bool")
+		vc.havoc(vc.callModSet(call))
+		r := vc.havocResults(call)
+		vc.gfact(Eq(Ne(sx("i_tag", r[0]), "0"), sx(fn, args[0])))
+		return true
+	case "filepath.Join", "filepath.Clean", "filepath.Dir", "filepath.Base", "filepath.FromSlash", "filepath.Ext", "path.Join", "path.Clean":
 		strRes()
 		return true
 	case "os.Getenv":
@@ -899,4 +925,247 @@ func (vc *VC) srcLoopAt(pos token.Pos) int {
 		}
 	}
 	return best
+}
+
+// formatConstCheck: a library function with a (format string, args ...interface{}) tail must be given a
+// format that is program text (a constant, or built from constants), or the format parameter of an
+// enclosing printf-like wrapper whose own call sites are checked: a run-time string used as a format
+// would have its % sequences interpreted (C16: messages are rendered verbatim).
+func (vc *VC) formatConstCheck(call ssa.CallInstruction, callee *ssa.Function) {
+	sig := callee.Signature
+	np := sig.Params().Len()
+	if !sig.Variadic() || np < 2 || !strings.HasSuffix(callee.Name(), "f") {
+		return
+	}
+	ft, ok := sig.Params().At(np - 2).Type().Underlying().(*types.Basic)
+	if !ok || ft.Info()&types.IsString == 0 {
+		return
+	}
+	if sl, ok := sig.Params().At(np - 1).Type().(*types.Slice); !ok || !types.IsInterface(sl.Elem()) {
+		return
+	}
+	args := call.Common().Args
+	if len(args) < 2 {
+		return
+	}
+	f := args[len(args)-2]
+	var isText func(v ssa.Value, d int) bool
+	isText = func(v ssa.Value, d int) bool {
+		if d > 8 {
+			return false
+		}
+		switch x := v.(type) {
+		case *ssa.Const:
+			return true
+		case *ssa.BinOp:
+			return x.Op == token.ADD && isText(x.X, d+1) && isText(x.Y, d+1)
+		case *ssa.Phi:
+			for _, e := range x.Edges {
+				if !isText(e, d+1) {
+					return false
+				}
+			}
+			return true
+		case *ssa.Parameter:
+			ps := vc.fn.Params
+			return vc.con != nil && vc.con.PrintfLike && len(ps) >= 2 && x == ps[len(ps)-2]
+		}
+		return false
+	}
+	cond := Term("false")
+	if isText(f, 0) {
+		cond = "true"
+	}
+	vc.check("format-const", call.Pos(), "", cond, []string{"C16"})
+}
+
+// mapOrderCheck (C02): an append executed inside a loop that ranges over a map builds a slice whose
+// element order is the map iteration order of that run. The obligation holds iff the slice (followed
+// through phis, re-slicing, appends and loads/stores of the same struct field) is handed to a sorting
+// function somewhere in the function; otherwise the order can leak into the output.
+var sortingFuncs = map[string]bool{
+	"sort.Strings": true, "sort.Ints": true, "sort.Float64s": true, "sort.Slice": true, "sort.SliceStable": true,
+	"sort.Sort": true, "sort.Stable": true, "slices.Sort": true, "slices.SortFunc": true, "slices.SortStableFunc": true,
+	"sortedQuotes": true,
+}
+
+func (vc *VC) mapOrderCheck(call ssa.CallInstruction) {
+	// loops over maps that contain the call: header -> its Next instruction
+	mapLoops := map[int]*ssa.Next{}
+	for h, set := range vc.loopBlks {
+		if !set[vc.blk.Index] {
+			continue
+		}
+		for _, b := range vc.fn.Blocks {
+			if b.Index != h {
+				continue
+			}
+			for _, ins := range b.Instrs {
+				if nx, ok := ins.(*ssa.Next); ok {
+					if r, ok := nx.Iter.(*ssa.Range); ok {
+						if _, isMap := r.X.Type().Underlying().(*types.Map); isMap {
+							mapLoops[h] = nx
+						}
+					}
+				}
+			}
+		}
+	}
+	if len(mapLoops) == 0 {
+		return
+	}
+	v := call.Value()
+	if v == nil {
+		return
+	}
+	// the slice appended to belongs to the key / value of the current iteration (rows[k], node.f for the
+	// range value node): each iteration has its own target, the map order does not order its elements
+	var fromIter func(x ssa.Value, d int) bool
+	fromIter = func(x ssa.Value, d int) bool {
+		if d > 8 {
+			return false
+		}
+		switch y := x.(type) {
+		case *ssa.Extract:
+			if nx, ok := y.Tuple.(*ssa.Next); ok {
+				for _, m := range mapLoops {
+					if m == nx {
+						return true
+					}
+				}
+			}
+			return fromIter(y.Tuple, d+1)
+		case *ssa.UnOp:
+			return fromIter(y.X, d+1)
+		case *ssa.FieldAddr:
+			return fromIter(y.X, d+1)
+		case *ssa.Field:
+			return fromIter(y.X, d+1)
+		case *ssa.IndexAddr:
+			return fromIter(y.X, d+1)
+		case *ssa.Lookup:
+			return fromIter(y.Index, d+1) || fromIter(y.X, d+1)
+		case *ssa.Slice:
+			return fromIter(y.X, d+1)
+		}
+		return false
+	}
+	if fromIter(call.Common().Args[0], 0) {
+		return
+	}
+	// the family of values that denote (versions of) the slice being built
+	fam := map[ssa.Value]bool{}
+	fields := map[string]bool{}
+	var work []ssa.Value
+	add := func(x ssa.Value) {
+		if x != nil && !fam[x] {
+			fam[x] = true
+			work = append(work, x)
+		}
+	}
+	fieldKey := func(a ssa.Value) string {
+		if fa, ok := a.(*ssa.FieldAddr); ok {
+			if pt, ok := fa.X.Type().Underlying().(*types.Pointer); ok {
+				if st, ok := pt.Elem().Underlying().(*types.Struct); ok {
+					return vc.e.typeName(pt.Elem()) + "." + st.Field(fa.Field).Name()
+				}
+			}
+		}
+		return ""
+	}
+	add(v)
+	add(call.Common().Args[0])
+	for len(work) > 0 {
+		x := work[len(work)-1]
+		work = work[:len(work)-1]
+		switch y := x.(type) {
+		case *ssa.Phi:
+			for _, e := range y.Edges {
+				add(e)
+			}
+		case *ssa.Slice:
+			add(y.X)
+		case *ssa.Call:
+			if bi, ok := y.Call.Value.(*ssa.Builtin); ok && bi.Name() == "append" {
+				add(y.Call.Args[0])
+			}
+		case *ssa.UnOp:
+			if y.Op == token.MUL {
+				if k := fieldKey(y.X); k != "" {
+					fields[k] = true
+				}
+			}
+		}
+		if refs := x.Referrers(); refs != nil {
+			for _, r := range *refs {
+				switch y := r.(type) {
+				case *ssa.Phi:
+					add(y)
+				case *ssa.Slice:
+					add(y)
+				case *ssa.Call:
+					if bi, ok := y.Call.Value.(*ssa.Builtin); ok && bi.Name() == "append" && y.Call.Args[0] == x {
+						add(y)
+					}
+				case *ssa.Store:
+					if y.Val == x {
+						if k := fieldKey(y.Addr); k != "" {
+							fields[k] = true
+						}
+					}
+				}
+			}
+		}
+	}
+	carried := false
+	if nx := mapLoops[vc.innermostLoop(vc.blk.Index)]; nx != nil {
+		carried = true
+	}
+	for x := range fam {
+		if ph, ok := x.(*ssa.Phi); ok && mapLoops[ph.Block().Index] != nil {
+			carried = true
+		}
+	}
+	if !carried {
+		return
+	}
+	var strip func(a ssa.Value) ssa.Value
+	strip = func(a ssa.Value) ssa.Value {
+		switch y := a.(type) {
+		case *ssa.MakeInterface:
+			return strip(y.X)
+		case *ssa.ChangeType:
+			return strip(y.X)
+		case *ssa.Convert:
+			return strip(y.X)
+		}
+		return a
+	}
+	sorted := false
+	for _, b := range vc.fn.Blocks {
+		for _, ins := range b.Instrs {
+			c, ok := ins.(ssa.CallInstruction)
+			if !ok {
+				continue
+			}
+			g := c.Common().StaticCallee()
+			if g == nil || !(sortingFuncs[libName(g)] || sortingFuncs[g.Name()]) {
+				continue
+			}
+			for _, a := range c.Common().Args {
+				a = strip(a)
+				if fam[a] {
+					sorted = true
+				}
+				if u, ok := a.(*ssa.UnOp); ok && u.Op == token.MUL && fields[fieldKey(u.X)] {
+					sorted = true
+				}
+			}
+		}
+	}
+	cond := Term("false")
+	if sorted {
+		cond = "true"
+	}
+	vc.check("map-order", call.Pos(), "", cond, []string{"C02"})
 }
